@@ -97,6 +97,33 @@ def run(cx):
         if not ok:
             inst.violation(pn.path, "PendingPacket.data", "PendingPacket::new does not store the packet data it is given")
     ack_loop_shape(cx, "C20.d")
+    with cx.instance("C20.g", "T3 WHO-MAY + T7", "what acknowledge subtracts is what enqueue added: PendingPacket::size() is the length of the payload, and the payload is never replaced after construction", floor=2) as inst:
+        PP = "half_connection::pending_packet::PendingPacket::"
+        sz = R.body(PP + "size")
+        e = show(sz.local_expr(0))
+        inst.site(sz, None, "size() = " + e)
+        if e != "[T]::len(arg1.data)":
+            inst.violation(sz.path, "size()", "PendingPacket::size() is `%s`, expected the payload length" % e)
+        nb = R.body(PP + "new")
+        for loc, s_ in nb.assigns():
+            rv = s_["rv"]
+            if rv["k"] == "agg" and rv.get("adt", "").endswith("PendingPacket"):
+                v = show(nb.operand_expr(rv["ops"][rv["fields"].index("data")]))
+                inst.site(nb, loc, "PendingPacket.data = " + v)
+                if v != "arg1":
+                    inst.violation(nb.path, "payload", "a pending packet stores `%s`, not the payload it was given" % v, at=nb.span_at(loc))
+        for ob in R.all_bodies():
+            if "pending_packet::" not in ob.path and "packet_sender::" not in ob.path and "half_connection::HalfConnection::" not in ob.path:
+                continue
+            if ob.path == nb.path:
+                continue
+            for l, node, ps in ob.field_writes(r".*\.data"):
+                tgt = show(ob.place_expr(node["pl"])) if node.get("pl") else ps
+                if re.search(r"(RefCell::borrow_mut\(.*\)|arg1)\.data$", tgt) and "pending_packet::" in ob.path:
+                    inst.violation(ob.path, "payload replaced", "the payload of a pending packet is replaced after construction: size() no longer equals what send_buffer_size() was charged", at=ob.span_at(l))
+            for l, t in ob.calls("re:mem::(replace|take|swap)$"):
+                if re.search(r"\.data\b", show(ob.operand_expr(t["args"][0]))) and "pending_packet::" in ob.path:
+                    inst.violation(ob.path, "payload replaced", "the payload of a pending packet is taken after construction", at=ob.span_at(l))
     # "zero once everything has been acknowledged": every ack frame reaches PacketSender::acknowledge with the
     # frame's packet window base, whatever the frame window does (an ack that only moves the packet window —
     # the reply to a resynchronising sync — must still release the bytes)
